@@ -1,0 +1,76 @@
+//go:build verif
+
+package router
+
+import "github.com/gammazero/nexus/v3/wamp"
+
+// VerifSnapshot returns, for every realm of the router, the sizes of the
+// tables held by its broker, dealer and realm. Each table is read inside the
+// goroutine that owns it. Read-only; compiled only with the verif build tag.
+func VerifSnapshot(rt Router) map[wamp.URI]map[string]int {
+	r, ok := rt.(*router)
+	if !ok {
+		return nil
+	}
+	realms := map[wamp.URI]*realm{}
+	done := make(chan struct{})
+	if !r.post(func() {
+		for uri, rlm := range r.realms {
+			realms[uri] = rlm
+		}
+		close(done)
+	}) {
+		return map[wamp.URI]map[string]int{}
+	}
+	<-done
+
+	out := map[wamp.URI]map[string]int{}
+	for uri, rlm := range realms {
+		sizes := map[string]int{}
+		sync := make(chan struct{})
+		rlm.actionChan <- func() {
+			sizes["clients"] = len(rlm.clients)
+			sizes["testaments"] = len(rlm.testaments)
+			close(sync)
+		}
+		<-sync
+		b := rlm.broker
+		sync = make(chan struct{})
+		b.actionChan <- func() {
+			sizes["subs"] = len(b.subscriptions)
+			sizes["subs_exact"] = len(b.topicSubscription)
+			sizes["subs_prefix"] = len(b.pfxTopicSubscription)
+			sizes["subs_wildcard"] = len(b.wcTopicSubscription)
+			sizes["sub_index"] = len(b.sessionSubIDSet)
+			sizes["history_stores"] = len(b.eventHistoryStore)
+			members := 0
+			for _, s := range b.subscriptions {
+				members += len(s.subscribers)
+			}
+			sizes["sub_members"] = members
+			close(sync)
+		}
+		<-sync
+		d := rlm.dealer
+		sync = make(chan struct{})
+		d.actionChan <- func() {
+			sizes["regs"] = len(d.registrations)
+			sizes["regs_exact"] = len(d.procRegMap)
+			sizes["regs_prefix"] = len(d.pfxProcRegMap)
+			sizes["regs_wildcard"] = len(d.wcProcRegMap)
+			sizes["reg_index"] = len(d.calleeRegIDSet)
+			sizes["calls"] = len(d.calls)
+			sizes["invocations"] = len(d.invocations)
+			sizes["invocation_by_call"] = len(d.invocationByCall)
+			callees := 0
+			for _, reg := range d.registrations {
+				callees += len(reg.callees)
+			}
+			sizes["reg_callees"] = callees
+			close(sync)
+		}
+		<-sync
+		out[uri] = sizes
+	}
+	return out
+}
